@@ -105,7 +105,11 @@ CLAIMS["C02"]["text"] += (" Properties/C02o (in C03o.v): after a Drain has been 
 CLAIMS["C04"]["text"] += (" Properties/C04p.v (Model/PanicOps.v): a panicking Eq inside find / find_or_find_insert_slot propagates without reaching any checked precondition and leaves the table exactly as the preceding reserve left it; "
     "a panicking retain closure leaves a valid table (SafeWF and WF) whose contents are: elements visited before the panic and kept (value updated), minus those rejected (each dropped once, in order), plus the panicking element and all unvisited ones untouched; "
     "a panicking extract_if closure leaves a valid table holding everything not yielded, the culprit included. Level C runs these models against the implementation with the k-th closure call panicking.")
-CLAIMS["C04"]["note"] = COMMON_NOTE + " PARTIAL: the theorems cover panics of the hasher, of destructors, of Clone, of Eq (at the level of the two search functions every operation uses) and of the retain / extract_if closures; panics of entry closures, of Into conversions and of extend iterators are decided by the fault-injection correspondence, the registry and wf_check on generated histories."
+CLAIMS["C04"]["text"] += (" Properties/C04q.v (Model/PanicOps2.v): the iterator handed to HashMap::extend panicking after ANY number p of pairs leaves a well-formed map representing exactly the pre-state plus the first p pairs inserted in order (no old element lost, each old key object kept); "
+    "a panicking Into conversion (K::from(&q)) in the entry_ref API unwinds exactly when the key is absent and leaves the table IDENTICAL to the pre-state, and is never run on a present key. Level C runs both models against the implementation (harness operation `extendp`, arm `intopanic`), level A demands exactly those contents.")
+CLAIMS["C04"]["note"] = COMMON_NOTE + " PARTIAL: the theorems cover panics of the hasher, of destructors, of Clone, of Eq (at the level of the two search functions every operation uses), of the retain / extract_if closures, of the extend iterator and of the Into conversion of entry_ref; panics of the closures handed to entry methods (replace_entry_with, and_modify, or_insert_with) are decided by the fault-injection correspondence, the registry and wf_check on generated histories."
+CLAIMS["C07"]["text"] += (" Properties/C07a.v (Proofs/SetOpsFacts.v): the ASSIGNING operators |=, &=, ^=, -= as the loops of set.rs over the TABLE model (every iteration a HashSet operation with real probing, tombstones, growth): from any well-formed left table and any right-hand element list the result is a well-formed table representing exactly the mathematical union / intersection / symmetric difference / difference, element objects included (set2_spec: which stored object survives, which right-hand object is cloned in); collect() of a duplicate-free pipeline output (what |, &, ^, - do) yields a well-formed table holding exactly those elements.")
+CLAIMS["C20"]["text"] += (" Properties/C20a.v (Proofs/SerdeTableFacts.v): the visitors on the TABLE model: with_capacity(cautious(hint)) followed by real inserts yields, for every hint, input and hash function, a well-formed table representing `build items`; an input error after ANY number of elements leaves a valid partial map whose drop releases each element built so far exactly once and its block exactly once with the requested layout (the error path of the property).")
 CLAIMS["C08"]["text"] += (" Properties/C08.v also states the last clause of the property: after shrink_to(m) the table has at most the bucket count (and at most the allocation size) of a fresh with_capacity(max(len, m)) (Proofs/ShrinkBound.v).")
 CLAIMS["C14"]["text"] += (" Properties/C14e.v (Model/Entry2.v): RawTable::insert_no_grow, HashMap::rustc_entry with its actions, raw_entry_mut().from_key / from_key_hashed_nocheck with their actions and raw_entry().from_key are transcribed as their own model code and PROVED equal, as values (table, output, event list), to the HashMap::entry composition -- rustc_entry(k) = the entry operation when k is present, reserve(1) followed by the entry operation when it is absent (also at growth_left = 0), insert_no_grow = RawTable::insert whenever its precondition holds -- hence they refine the reference map; level C runs this code-shaped model against the implementation.")
 CLAIMS["C14"]["note"] = COMMON_NOTE + " entry_ref differs from entry only in how the stored key object is built (From<&Q>) and is compared as the entry operation; raw_entry().from_key equals get_key_value except that it hashes on an empty map (side condition shown necessary by Entry2Facts.raw_get_counterexample)."
